@@ -82,6 +82,39 @@ CHECKS = {
              'zeroth coefficients must equal the NumPy/SciPy factorization the code wraps.',
         note='validity predicates + NumPy/SciPy zeroth coefficients; tolerance 1e-8 relative to term magnitudes, gaps >= 0.3, sigma_min >= 0.2; sizes <= 5, D <= 6 (eig 2), P <= 3',
         ref='DESIGN.md section 4, C08; notes/C08.md'),
+    'C02': dict(
+        technique='property-based testing (Hypothesis): operator x operand-kind x broadcast-pattern buckets vs exact Gaussian-rational truncated power series (exact comparison in the integer/dyadic regime), mpmath oracle for powers',
+        text='111 buckets (4 operators x 21 operand-kind pairs incl. reflected forms, in-place forms incl. aliased right operands, 7 power forms): results compared '
+             'with exact rational power-series arithmetic evaluated per direction with NumPy supplying the broadcasting of the reference; exact equality when float64 '
+             'arithmetic is exact, 1e-12 relative to the convolution terms otherwise; imaginary parts and result shapes asserted.',
+        note='trusts Python Fractions/NumPy broadcasting, mpmath for non-integer powers; D <= 8, P <= 3; dtype asserted only where the statement does (complex never dropped)',
+        ref='DESIGN.md section 4, C02; notes/C02.md'),
+    'C09': dict(
+        technique='property-based testing (Hypothesis): generated integer-coefficient polynomial programs run on UTPM and on exact sparse polynomials (analytic derivatives in Fractions); metamorphic cross-checks and mpmath for smooth programs',
+        text='Generated polynomial programs (degree <= 5, N <= 6, scalar/vector/matrix outputs) are pushed through init_*/extract_* (jacobian, jac_vec, hessian, hess_vec, tensor d=1..5) '
+             'and compared with exact analytic derivatives; smooth programs are compared with mpmath and through the relations Jacobian column = jac_vec(e_j), Hessian = tensor(2) = hess_vec columns.',
+        note='exact rational reference, tolerance 1e-10 relative to a majorant of the terms; (N,d) limited to C(N+d-1,d) <= 126',
+        ref='DESIGN.md section 4, C09; notes/C09.md'),
+    'C10': dict(
+        technique='property-based testing (Hypothesis): registry of ~140 public operations vs NumPy/SciPy applied to zeroth coefficients (values, shape, len, size, ndim), comparison-operator truth tables with drawn outcome patterns, plain-argument dispatch differential test',
+        text='203 buckets: (a) zeroth coefficient per direction and shape metadata of every operation family equal NumPy/SciPy on the zeroth coefficients; (b) < <= > >= == between polynomial/polynomial, '
+             'scalar and ndarray operands equal numpy.all of the element-wise comparison (ties, mixed outcomes across elements and directions); (c) every public name shadowing a NumPy/SciPy function returns '
+             'exactly the NumPy/SciPy result for plain arguments.',
+        note='NumPy/SciPy are the specification; exact for data movement, 1e-13 element-wise, 1e-12 LAPACK-based; sign/layout-ambiguous factors excluded (C08)',
+        ref='DESIGN.md section 4, C10; notes/C10.md'),
+    'C13': dict(
+        technique='property-based testing (Hypothesis, incl. a byte-decoded target; optional atheris stage): slice-wise NumPy model with parallel ndarray for view/write-through semantics',
+        text='28 buckets over every basic index form (tuple and bare), setitem value kinds with/without broadcasting, reshape/transpose/sum/tile/diag/triu/tril/trace/symvec/vecsym/neg/conj/real/imag/fft/ifft/zeros/ones: '
+             'op(x).data[d,p] == numpy_op(x.data[d,p]) exactly; views must share memory whenever NumPy returns a view and writing through them must update the parent like the NumPy model; constants clear higher coefficients; '
+             'unsupported forms must raise.',
+        note='NumPy is the specification, exact comparison; D <= 4, P <= 3, rank <= 4; the atheris stage runs only if atheris is importable (counted inconclusive otherwise)',
+        ref='DESIGN.md section 4, C13; notes/C13.md'),
+    'C17': dict(
+        technique='property-based testing (Hypothesis) of round trips compared bit-wise + exhaustive enumeration of all pivot vectors for N <= 7 against an independent row-swap model',
+        text='Round trips of base/directions <-> polynomial, symvec/vecsym (F/L/U), containers <-> polynomial, shift(s)/shift(-s), coeff_op, combine_blocks vs block indexing are compared bit-wise; '
+             'all 5913 pivot vectors for N <= 7 are enumerated every run (piv2mat = replayed row swaps, piv2det = permutation sign) and lu_factor outputs of generated matrices satisfy P L U = A and det = sign*prod(diag U).',
+        note='bit-wise comparison (signed zeros handled where the arithmetic changes them); exhaustive only for the pivot enumeration (reported in evidence), the rest is sampled',
+        ref='DESIGN.md section 4, C17; notes/C17.md'),
 }
 
 NOT_BUILT = 'check not built yet in this session (planned, see DESIGN.md section 4)'
